@@ -781,7 +781,12 @@ class Evaluator:
         if cand is None and fn.get('trait') and st.selfty and str(fn.get('full', '')).startswith('<Self as '):
             # a required method called from a provided method of a crate-private trait, spliced for a concrete Self
             cand = facts.bodies.get('<' + st.selfty + fn['full'][len('<Self'):])
-        if cand is None or not inlinable(cand):
+        if cand is not None and not inlinable(cand) and canon(cand.key) in ('pointer::KanalPtr::copy', 'pointer::KanalPtr::write', 'pointer::KanalPtr::read') \
+                and self.body.key.startswith('pointer::KanalPtr::') and cand.j.get('def_kind') in ('Fn', 'AssocFn'):
+            # inside pointer.rs one KanalPtr primitive may be written in terms of another (`write(d)` = `copy(&d); forget(d)`):
+            # the callee's storage decisions are the caller's
+            pass
+        elif cand is None or not inlinable(cand):
             return None
         cur = st.body or self.body
         if cand is cur or any(f['body'] is cand for f in st.stack) or cand is self.body:
@@ -972,6 +977,15 @@ class Evaluator:
                         folded = x
                     if folded is not None:
                         self.assign(st, t['dest'], folded, t.get('at'), b)
+                        b = t['target']
+                        continue
+                if name in ('std::cmp::PartialEq::eq', 'std::cmp::PartialEq::ne') and len(args) == 2 and t.get('target') is not None:
+                    x0, x1 = strip_ref_value(args[0]), strip_ref_value(args[1])
+                    if x0 is not None and x1 is not None and x0[0] == 'agg' and x1[0] == 'agg' and x0[1] == x1[1] and not x0[3] and not x1[3] \
+                            and x0[1] not in ('tuple', 'closure', 'array'):
+                        # derived equality of two known field-less enum values (`Transfer::of::<T>() != Transfer::Zst`)
+                        same = x0[2] == x1[2]
+                        self.assign(st, t['dest'], ('const', 'bool', '1' if same == name.endswith('eq') else '0'), t.get('at'), b)
                         b = t['target']
                         continue
                 if name in ('std::option::Option::is_some', 'std::option::Option::is_none') and args and t.get('target') is not None:
